@@ -109,7 +109,10 @@ def main():
             d = f"/verif/mutants/{name}"
             os.makedirs(d, exist_ok=True)
             open(os.path.join(d, "patch.diff"), "w").write(sh(f"git -C {wt} diff").stdout)
-            json.dump({"name": name, "expected_killers": expect, "files": sorted({e[0] for e in edits}),
+            extra = {}
+            if name == "nack-gap-ge-16":
+                extra["equivalent"] = "equivalent under C12 as stated: a gap of exactly 16 starts a new pair instead of setting bit 15; the pairs are less compact but still cover exactly the requested set"
+            json.dump({**extra, "name": name, "expected_killers": expect, "files": sorted({e[0] for e in edits}),
                        "note": "deliberate mutation from DESIGN.md section 6.1; compiles and passes the 127 existing tests"},
                       open(os.path.join(d, "meta.json"), "w"), indent=1)
             print(f"{name}: ok")
